@@ -140,6 +140,13 @@ func (la *LockAnalysis) HeldAtEntry(fn *ssa.Function) lockSet {
 	if len(cs) > 0 && !la.escaped[fn] && !exported {
 		first := true
 		for _, c := range cs {
+			// a method called on a receiver freshly allocated in the caller
+			// (constructor, object not yet shared) constrains nothing
+			if args := c.Common().Args; len(args) > 0 && fn.Signature.Recv() != nil {
+				if al, ok := resolve(args[0]).(*ssa.Alloc); ok && al.Parent() == c.Parent() {
+					continue
+				}
+			}
 			h := la.HeldAt(c)
 			if first {
 				res = h.clone()
